@@ -5,6 +5,7 @@
    keys (hypothesis NoDup (map fst _)); its list order stands for an arbitrary iteration order. *)
 From Coq Require Import ZArith List Bool Sorted Permutation.
 From Verif Require Import Base.F64 Base.Str Gen.Gen_Consts Model.ConstMetrics Proofs.C14_proofs.
+From Verif Require Proofs.Gen_tie.
 Import ListNotations.
 Open Scope Z_scope.
 
@@ -244,3 +245,8 @@ Example example_exemplar_placement :
       (fold_left (place_one 9) [e 1; e 2; e 5; e 2; e 9] [b 1; b 2; b 4])
   = [Some (Some 1); Some (Some 2); None; Some (Some 9)].
 Proof. vm_compute. reflexivity. Qed.
+
+(* the schema limits of the model are the ones of the Go source (regenerated on every run) *)
+Theorem native_schema_limits_match_source :
+  ConstMetrics.schema_max = Verif.Gen.Gen_Consts.native_schema_max /\ ConstMetrics.schema_min = Verif.Gen.Gen_Consts.native_schema_min.
+Proof. exact Verif.Proofs.Gen_tie.native_schema_limits_match_source_lemma. Qed.
